@@ -47,6 +47,7 @@ type In struct {
 	Arch    string            // amd64 | i386 | kfreebsd-amd64 (or a name the alphabet audit supplied)
 	Alias   map[string]string `json:",omitempty"` // alphabet audit: default name (src-a, bin-a1, otherpkg, zlib1g-dev) -> name used instead, in text AND model
 	Extra   []string          `json:",omitempty"` // alphabet audit: extra unknown fields "Name: value" written into every .dsc
+	ArchF   []int             `json:",omitempty"` // per source: its own Architecture field, index into archFields (0 = any); never affects the model's edges
 	Ver     []int             `json:",omitempty"` // per source: its own Version, index into srcVersions (0 = 1.0-1, the value every older artefact has)
 	Seq     []In              `json:",omitempty"` // call sequence: these models are ordered one after the other on one goroutine (the other fields are unused)
 	Perm    []int             // input slice order: position p holds source Perm[p]
@@ -323,7 +324,14 @@ func (in In) third(i, j int) string {
 
 func srcName(i int) string { return "src-" + string(rune('a'+i)) }
 
-func binName(i, k int) string { return fmt.Sprintf("bin-%c%d", 'a'+i, k) }
+// binName: the k-th binary of source i. The FIRST binary of the first source carries the source's own name (source
+// hello builds binary hello — the usual case in Debian); all other names differ from every source name by default.
+func binName(i, k int) string {
+	if i == 0 && k == 1 {
+		return srcName(0)
+	}
+	return fmt.Sprintf("bin-%c%d", 'a'+i, k)
+}
 
 // al / src / bin: the names actually used (text and model alike) — the defaults unless the audit renamed one.
 func (in In) al(s string) string {
@@ -348,7 +356,8 @@ func (in In) valid() bool {
 	}
 	seen := make([]bool, n)
 	for i := 0; i < n; i++ {
-		if in.NB[i] < 1 || in.NB[i] > maxNB || len(in.Dep[i]) != n || len(in.Field[i]) != n || len(in.Deco[i]) != n {
+		if in.NB[i] < 0 || in.NB[i] > maxNB || // (0 binaries: only in the naming scenario)
+			len(in.Dep[i]) != n || len(in.Field[i]) != n || len(in.Deco[i]) != n {
 			return false
 		}
 		if in.Perm[i] < 0 || in.Perm[i] >= n || seen[in.Perm[i]] {
@@ -367,6 +376,14 @@ func (in In) valid() bool {
 	}
 	for _, v := range in.Ver {
 		if v < 0 || v >= len(srcVersions) {
+			return false
+		}
+	}
+	if len(in.ArchF) != n {
+		return false
+	}
+	for _, v := range in.ArchF {
+		if v < 0 || v >= len(archFields) {
 			return false
 		}
 	}
@@ -467,8 +484,15 @@ func (in In) norm() In {
 	if in.Ver == nil {
 		in.Ver = make([]int, n)
 	}
+	if in.ArchF == nil {
+		in.ArchF = make([]int, n)
+	}
 	return in
 }
+
+// archFields: the Architecture field of a source's .dsc ("" = absent). The statement filters per RELATION by the build
+// architecture; what architectures the provider's own binaries are for plays no role for the order.
+var archFields = []string{"any", "all", "any all", "amd64", "i386", "linux-any", ""}
 
 // srcVersions: the Version field of a source. Version constraints of build-dependencies are about the BINARY
 // package and never remove an edge in the model, whatever the provider's source version is.
@@ -542,6 +566,8 @@ func (in In) dscText(i int) string {
 	b.WriteString("Format: 3.0 (quilt)\n")
 	b.WriteString("Source: " + s + "\n")
 	switch {
+	case in.NB[i] == 0:
+		// a source that builds no binary of its own in this set: no Binary field
 	case in.NB[i] == 1:
 		b.WriteString("Binary: " + in.bin(i, 1) + "\n")
 	case in.NB[i] == 2 && in.FoldBin[i] == 1:
@@ -561,7 +587,9 @@ func (in In) dscText(i int) string {
 			}
 		}
 	}
-	b.WriteString("Architecture: any\n")
+	if a := archFields[in.ArchF[i]]; a != "" {
+		b.WriteString("Architecture: " + a + "\n")
+	}
 	if v := srcVersions[in.Ver[i]]; v != "" {
 		b.WriteString("Version: " + v + "\n")
 	}
@@ -729,7 +757,7 @@ type harnessProblem struct{ msg string }
 func (in In) rowKey(i int) string {
 	b := make([]byte, 0, 8+4*in.N)
 	b = append(b, byte(i), byte(in.Unknown[i]), byte(in.Fold[i]), byte(in.FoldBin[i]),
-		byte(in.Ver[i]), byte(in.Spread[i]), byte(in.PadKind[i]), byte(in.Pos[i]), byte(in.Pad[i][0]), byte(in.Pad[i][1]), byte(in.Pad[i][2]))
+		byte(in.ArchF[i]), byte(in.Ver[i]), byte(in.Spread[i]), byte(in.PadKind[i]), byte(in.Pos[i]), byte(in.Pad[i][0]), byte(in.Pad[i][1]), byte(in.Pad[i][2]))
 	for j := 0; j < in.N; j++ {
 		b = append(b, byte(in.NB[j]), byte(in.Dep[i][j]), byte(in.Field[i][j]), byte(in.Deco[i][j]))
 	}
@@ -1140,7 +1168,7 @@ func enumGraphs(n int, diag bool) []graph {
 
 func blank(n int) In {
 	in := In{N: n, NB: make([]int, n), Unknown: make([]int, n), Fold: make([]int, n), FoldBin: make([]int, n), Arch: "amd64",
-		Spread: make([]int, n), PadKind: make([]int, n), Pos: make([]int, n), Ver: make([]int, n)}
+		Spread: make([]int, n), PadKind: make([]int, n), Pos: make([]int, n), Ver: make([]int, n), ArchF: make([]int, n)}
 	for i := 0; i < n; i++ {
 		in.Pad = append(in.Pad, make([]int, 3))
 		in.Dep = append(in.Dep, make([]int, n))
@@ -1163,6 +1191,7 @@ func clone(b In) In {
 	in.PadKind = append([]int(nil), b.PadKind...)
 	in.Pos = append([]int(nil), b.Pos...)
 	in.Ver = append([]int(nil), b.Ver...)
+	in.ArchF = append([]int(nil), b.ArchF...)
 	in.Dep, in.Field, in.Deco, in.Pad = nil, nil, nil, nil
 	for i := 0; i < b.N; i++ {
 		in.Pad = append(in.Pad, append([]int(nil), b.Pad[i]...))
@@ -1244,6 +1273,8 @@ type scen struct {
 	layout    bool              // per-source field-layout Deviate points (spread over fields, 0..7 extra relations per field, their kind, position)
 	oneBinary bool              // only graphs in which every source has one binary
 	onlyLay   bool              // ONLY field and layout points deviate (decoration, unknown, folding stay default)
+	archF     bool              // per-source Deviate point: the source's own Architecture field (7 values)
+	namings   []naming          // if set: every base graph is combined with every naming variant (full product)
 	ver       bool              // per-source Deviate point: the source's own Version (4 values)
 	verAll    bool              // every base graph is combined with EVERY assignment of source versions (full product)
 	decoSet   []int             // if set: the decoration Deviate point ranges over these indices (decoSet[0] must be 0)
@@ -1285,7 +1316,11 @@ func explore(r *mc.Run, sc scen) {
 			}
 		}
 	}
-	nBases := len(graphs) * len(vers)
+	namings := sc.namings
+	if namings == nil {
+		namings = []naming{{name: "default", alias: sc.alias, noBin: -1}}
+	}
+	nBases := len(graphs) * len(vers) * len(namings)
 	const chunk = 16
 	nsh := (nBases + chunk - 1) / chunk
 	points := fmt.Sprintf("per dependency: field (3), decoration (%d); per source: unknown dependency (none/first/last), build-dep fields folded, Binary folded", decoN)
@@ -1297,6 +1332,16 @@ func explore(r *mc.Run, sc scen) {
 	}
 	if sc.ver {
 		points += "; per source: its own Version (4)"
+	}
+	if sc.archF {
+		points += "; per source: its own Architecture field (any, all, any all, amd64, i386, linux-any, absent)"
+	}
+	if sc.namings != nil {
+		var nn []string
+		for _, x := range sc.namings {
+			nn = append(nn, x.name)
+		}
+		points += "; every graph × every naming variant: " + strings.Join(nn, " | ")
 	}
 	if sc.layout {
 		points += "; per source: spread of its dependencies over the three fields (5), extra relations in Build-Depends (0..7), in -Arch (0..2), in -Indep (0..2), kind of extra relations (2), position of the real relations (first/middle/last)"
@@ -1315,9 +1360,23 @@ func explore(r *mc.Run, sc scen) {
 		}
 		ok := true
 		for g := lo; g < hi && ok; g++ {
-			base := graphs[g/len(vers)].expand(n)
-			base.Ver = append([]int(nil), vers[g%len(vers)]...)
-			base.Alias, base.Extra = sc.alias, sc.extra
+			nm := namings[g%len(namings)]
+			base := graphs[g/len(namings)/len(vers)].expand(n)
+			base.Ver = append([]int(nil), vers[g/len(namings)%len(vers)]...)
+			base.Alias, base.Extra = nm.alias, sc.extra
+			if nm.noBin >= 0 {
+				// the source builds no binary here: skip graphs in which somebody depends on one of its binaries
+				skip := false
+				for i := 0; i < n; i++ {
+					if base.Dep[i][nm.noBin] != 0 {
+						skip = true
+					}
+				}
+				if skip {
+					continue
+				}
+				base.NB[nm.noBin] = 0
+			}
 			if len(cache) > 8192 {
 				cache = parseCache{} // bound the memory held by memoised parses
 			}
@@ -1348,6 +1407,9 @@ func explore(r *mc.Run, sc scen) {
 						}
 						if sc.ver {
 							in.Ver[i] = x.Deviate(len(srcVersions), "source-version")
+						}
+						if sc.archF {
+							in.ArchF[i] = x.Deviate(len(archFields), "source-architecture-field")
 						}
 						if !sc.onlyLay {
 							in.Unknown[i] = x.Deviate(3, "unknown-dependency")
@@ -1431,8 +1493,8 @@ func Run(r *mc.Run) {
 	both, three := archs[:2], archs // the third build architecture (non-linux) only where the whole decoration alphabet is explored
 	nFull := len(decos)
 	p1, p2, p3 := permutations(1), permutations(2), permutations(3)
-	explore(r, scen{name: "graphs-n1-k2", n: 1, k: 2, perms: p1, archSet: three, maxDeps: -1, decoN: nFull, layout: true, diag: true, ver: true})
-	explore(r, scen{name: "graphs-n2-k2", n: 2, k: 2, perms: p2, archSet: both, maxDeps: -1, decoN: nCore, layout: true, ver: true})
+	explore(r, scen{name: "graphs-n1-k2", n: 1, k: 2, perms: p1, archSet: three, maxDeps: -1, decoN: nFull, layout: true, diag: true, ver: true, archF: true})
+	explore(r, scen{name: "graphs-n2-k2", n: 2, k: 2, perms: p2, archSet: both, maxDeps: -1, decoN: nCore, layout: true, ver: true, archF: true})
 	// version constraints against every provider source version: all two-source graphs (diagonal included) × all 16
 	// version assignments, one deviation among field / the 35 version decorations / unknown / folding
 	vset := []int{0}
@@ -1441,6 +1503,9 @@ func Run(r *mc.Run) {
 	}
 	explore(r, scen{name: "versions-n2-k1", n: 2, k: 1, perms: p2, archSet: both[:1], maxDeps: -1, decoN: nBasic, diag: true, verAll: true, decoSet: vset})
 	explore(r, scen{name: "versions-n3-k1-upto2deps", n: 3, k: 1, perms: p3, archSet: both[:1], maxDeps: 2, decoN: nBasic, oneBinary: true, ver: true, decoSet: vset})
+	// naming: source names that coincide with binary names of other sources / of their own, prefixes
+	explore(r, scen{name: "naming-n2-k1", n: 2, k: 1, perms: p2, archSet: both, maxDeps: -1, decoN: nBasic, namings: namingVariants(2), archF: true})
+	explore(r, scen{name: "naming-n3-k0", n: 3, k: 0, perms: p3, archSet: both[:1], maxDeps: -1, decoN: nBasic, namings: namingVariants(3)})
 	// self-dependencies: the whole n×n matrix
 	explore(r, scen{name: "selfdeps-n2-k1-alldecorations", n: 2, k: 1, perms: p2, archSet: three, maxDeps: -1, decoN: nFull, diag: true})
 	explore(r, scen{name: "selfdeps-n2-k2", n: 2, k: 2, perms: p2, archSet: both, maxDeps: -1, decoN: nBasic, diag: true})
